@@ -180,6 +180,7 @@ VTickers(h2, L) ==
 
 \* ------------------------------------------------------------------ C10: usage reports multicast by the kernel
 TrigOfCause(c) == Encode(UsageReportTriggerTbl, CauseMap(c))
+NoTimes(trig) == Decode(UsageReportTriggerTbl, trig) \cap {"START", "STOPT", "MACAR"} # {}
 VKrep(h, L) ==
   LET e == L.e
       known(k) == k.seid \in LiveSeids(h) /\ \E x \in h.urr : x.seid = k.seid /\ x.id = k.urr
@@ -191,7 +192,10 @@ VKrep(h, L) ==
        V(Len(all) = Len(ks), "C10:number of usage reports forwarded differs from the reports the kernel produced for known sessions and URRs"),
        V(\A i \in DOMAIN ks :
             \E x \in Rng(all) :
-               /\ x.r.urr = ks[i].urr /\ x.r.vals.st = ks[i].vals.st /\ x.r.vals.et = ks[i].vals.et
+               /\ x.r.urr = ks[i].urr
+               \* TS 29.244 7.5.8.3: Start / End Time are present except for the triggers START, STOPT and MACAR
+               /\ IF NoTimes(TrigOfCause(ks[i].trig)) THEN x.r.vals.st \in {"-", ks[i].vals.st} /\ x.r.vals.et \in {"-", ks[i].vals.et}
+                  ELSE x.r.vals.st = ks[i].vals.st /\ x.r.vals.et = ks[i].vals.et
                /\ x.o.seid = SessOf(h, ks[i].seid).cp /\ x.o.to = NodePeer(SessOf(h, ks[i].seid).node)
                /\ x.r.trig = TrigOfCause(ks[i].trig)
                /\ LET u == CHOOSE u \in h.urr : u.seid = ks[i].seid /\ u.id = ks[i].urr IN
